@@ -47,6 +47,7 @@ def gen(r, quick):
         names.append(dict(name=nm, typ=typ))
         dup_ok = muldefs or r.random() < 0.06
         have_strong = False
+        have_comdat = False
         for u in units:
             c = r.random()
             if c < 0.38:
@@ -55,12 +56,19 @@ def gen(r, quick):
                     st = "strong" if r.random() < 0.75 else "weak"
                     vis = "protected" if r.random() < 0.1 else "default"
                 else:
-                    pool = ["strong", "weak", "weak"] + (["common", "common", "unique"] if typ == "data" else [])
+                    pool = ["strong", "weak", "weak", "comdat"] + (["common", "common", "unique"] if typ == "data" else [])
                     st = r.choice(pool)
-                    if st in ("strong", "unique") and have_strong and not dup_ok:
+                    # several COMDAT copies of one name are legal (first group kept); a COMDAT copy next
+                    # to an ordinary strong definition is a duplicate and generated only rarely
+                    mix_ok = dup_ok or r.random() < 0.08
+                    if st in ("strong", "unique") and (have_strong or have_comdat) and not mix_ok:
+                        st = "weak"
+                    if st == "comdat" and have_strong and not mix_ok:
                         st = "weak"
                     if st in ("strong", "unique"):
                         have_strong = True
+                    if st == "comdat":
+                        have_comdat = True
                     vis = r.choice(["default"] * 8 + ["hidden", "protected"]) if st != "unique" else "default"
                 tag += 1
                 u["defs"][nm] = dict(st=st, vis=vis, tag=tag, size=r.choice([1, 2, 4, 8, 16]) if st == "common" else 1)
@@ -90,6 +98,18 @@ def unit_src(case, u):
     lines = []
     for nm, d in sorted(u["defs"].items()):
         v = VIS[d["vis"]]
+        if d["st"] == "comdat":
+            # strong global definition inside a COMDAT group named after the symbol
+            vd = "" if d["vis"] == "default" else f".{d['vis']} {nm}\\n"
+            if typ[nm] == "func":
+                t += (f'__asm__(".pushsection .text.{nm},\\"axG\\",@progbits,{nm},comdat\\n.globl {nm}\\n{vd}.type {nm},@function\\n'
+                      f'{nm}: movl ${d["tag"]},%eax\\n ret\\n.size {nm},.-{nm}\\n.popsection");\nextern {v}int {nm}(void);\n')
+                lines.append(f'  printf("u{u["idx"]}:{nm}=%d\\n", {nm}());\n')
+            else:
+                t += (f'__asm__(".pushsection .data.{nm},\\"awG\\",@progbits,{nm},comdat\\n.globl {nm}\\n{vd}.type {nm},@object\\n.size {nm},4\\n'
+                      f'.balign 4\\n{nm}: .long {d["tag"]}\\n.popsection");\nextern {v}int {nm}[];\n')
+                lines.append(f'  printf("u{u["idx"]}:{nm}=%d\\n", {nm}[0]);\n')
+            continue
         if typ[nm] == "func":
             w = "__attribute__((weak)) " if d["st"] == "weak" else ""
             t += f"{v}{w}int {nm}(void) {{ return {d['tag']}; }}\n"
@@ -164,10 +184,10 @@ def model(case):
     for n in case["names"]:
         nm = n["name"]
         defs = [(u, u["defs"][nm]) for u in exe if nm in u["defs"]]
-        strong = [x for x in defs if x[1]["st"] in ("strong", "unique")]
+        strong = [x for x in defs if x[1]["st"] in ("strong", "unique", "comdat")]
         commons = [x for x in defs if x[1]["st"] == "common"]
         weaks = [x for x in defs if x[1]["st"] == "weak"]
-        if len(strong) > 1 and not case["muldefs"]:
+        if len(strong) > 1 and not case["muldefs"] and not all(x[1]["st"] == "comdat" for x in strong):
             return ("reject", "duplicate", nm)
         w = None
         if strong:
@@ -399,6 +419,12 @@ def one_case(ctx, ci, forced=None):
             return
         ok = xlink.linked_ok(res, out)
         if isinstance(exp, tuple):
+            if ok and exp[1] == "nondefault-visibility-reference-to-shared":
+                # ld/lld reject a hidden/protected reference that only a shared library satisfies; the property's
+                # statement does not list that rule, so wild accepting such a link is reported, not judged
+                ctx.note("info:wild-links-nondefault-visibility-reference-to-shared")
+                ctx.inconclusive("excluded: rejection by visibility merging is not part of the statement")
+                return
             if ok:
                 rr = xlink.runprog(out, libdirs=libdirs)
                 nk = name_kinds(case, exp[2], set(range(99)))
@@ -447,7 +473,7 @@ def one_case(ctx, ci, forced=None):
                     sig = f"binding:gnu-unique-ranked-as-weak:expected=unique:wild={kb}"
                 pos = cmd_positions(case)
                 wu = tag_unit(case, a) if a not in (None, 0, -1) else None
-                if wu is not None and wu["kind"] != "lib" and any(
+                if ka != "unique" and wu is not None and wu["kind"] != "lib" and any(
                         x["kind"] == "mem" and x["idx"] not in exp["loaded"] and nm in x["defs"] and pos[x["idx"]] < pos[wu["idx"]]
                         for x in case["units"]):
                     sig = f"binding:ref={ref}:wild={kb}:earlier-unloaded-archive-member-defines-name"
@@ -501,6 +527,14 @@ def pinned_cases():
             dict(unit(0, kind="mem", defs={"s0": D("strong", 101)}, forced=False), archive=0),
             dict(unit(1, kind="mem", defs={"s0": D("strong", 102), "s1": D("strong", 103)}, forced=False), archive=1),
             unit(2, refs={"s0": dict(weak=True, vis="default"), "s1": R})]),
+        # COMDAT copies: several are fine (first kept); one next to an ordinary strong definition is a duplicate
+        dict(base, order=[0, 1, "M"], units=[unit(0, defs={"s0": D("comdat", 101)}), unit(1, defs={"s0": D("comdat", 102)})]),
+        dict(base, order=[0, 1, "M"], units=[unit(0, defs={"s0": D("comdat", 101)}), unit(1, defs={"s0": D("strong", 102)})]),
+        dict(base, order=[0, 1, "M"], units=[unit(0, defs={"s0": D("strong", 101)}), unit(1, defs={"s0": D("comdat", 102)})]),
+        dict(base, names=[dict(name="s0", typ="func")], order=[0, 1, 2, "M"],
+             units=[unit(0, defs={"s0": D("comdat", 101)}), unit(1, defs={"s0": D("comdat", 102)}), unit(2, defs={"s0": D("strong", 103)})]),
+        dict(base, names=[dict(name="s0", typ="func")], order=[0, 1, 2, "M"],
+             units=[unit(0, defs={"s0": D("weak", 101)}), unit(1, defs={"s0": D("comdat", 102)}), unit(2, refs={"s0": R})]),
     ]
 
 
@@ -508,7 +542,7 @@ def main(ctx):
     global LIM
     LIM = xlink.SigLimiter(ctx, 2)
     ctx.rule = ("random link lines of 2-8 files (objects, archive members forced or lazy, shared libraries built by GNU ld) defining/"
-                "referencing 3-10 names with random strength (strong, weak, common(size), GNU-unique), visibility and kind, in random "
+                "referencing 3-10 names with random strength (strong, strong in a COMDAT group, weak, common(size), GNU-unique), visibility and kind, in random "
                 "command-line order, with/without --allow-multiple-definition; a case counts when model, GNU ld and lld agree and at "
                 "least one name has competing definitions (or the link is rejected by all three)")
     ctx.assumptions = ["GNU ld 2.40 and ld.lld 14 calibrate the model; any disagreement is inconclusive",
